@@ -104,7 +104,7 @@ theorem getTxn_putTxn (s : St) (id id' : Nat) (t : Txn) :
 @[simp] theorem applyCommit_store (s : St) (t : Txn) (ts : Nat) :
     (applyCommit s t ts).store = entriesOf t.writes ts ++ s.store := rfl
 @[simp] theorem applyCommit_log (s : St) (t : Txn) (ts : Nat) :
-    (applyCommit s t ts).log = { ts := ts, readTs := t.readTs, writes := t.writes, rlog := t.rlog } :: s.log := rfl
+    (applyCommit s t ts).log = commitOf t ts :: s.log := rfl
 @[simp] theorem applyCommit_txns (s : St) (t : Txn) (ts : Nat) : (applyCommit s t ts).txns = s.txns := rfl
 @[simp] theorem applyCommit_rm (s : St) (t : Txn) (ts : Nat) : (applyCommit s t ts).rm = s.rm := rfl
 @[simp] theorem applyCommit_committed (s : St) (t : Txn) (ts : Nat) : (applyCommit s t ts).committed = s.committed := rfl
@@ -164,7 +164,7 @@ inductive StepKind (c : MvccCfg) (s : St) (op : Op) (r : St × Out) : Prop where
   | same (h1 : r.1.store = s.store) (h2 : r.1.log = s.log) (h3 : r.1.nextTs = s.nextTs)
   | burnt (h1 : r.1.store = s.store) (h2 : r.1.log = s.log) (h3 : r.1.nextTs = s.nextTs + 1) (ho : r.2 ≠ .ok)
   | commit (t : Txn) (hw : t.writes ≠ []) (h1 : r.1.store = entriesOf t.writes s.nextTs ++ s.store)
-      (h2 : r.1.log = { ts := s.nextTs, readTs := t.readTs, writes := t.writes, rlog := t.rlog } :: s.log)
+      (h2 : r.1.log = commitOf t s.nextTs :: s.log)
       (h3 : r.1.nextTs = s.nextTs + 1) (ho : r.2 = .ok)
       (id : Nat) (hg : getTxn s id = some t) (hd : t.discarded = false) (hop : op = .commit id)
   | reopened (hop : op = .reopen) (hs : r.1 = reopenDB c s)
@@ -499,7 +499,7 @@ theorem getTxn_congr {s1 s2 : St} (h : s1.txns = s2.txns) (id : Nat) : getTxn s1
 theorem getTxn_discardTxn (c : MvccCfg) (s : St) (id id' : Nat) (t : Txn) :
     getTxn (discardTxn c s id t) id' =
       if id = id' then some { t with discarded := true, writes := [], update := false, readTs := 0, reads := [],
-                                     ckeys := [], count := 0, size := 0, doneRead := false }
+                                     ckeys := [], count := 0, size := 0, doneRead := false, scanned := false }
       else getTxn s id' := by
   unfold discardTxn
   rw [getTxn_putTxn]
@@ -550,7 +550,13 @@ inductive Evolve (c : MvccCfg) (fp : Key → Nat) (s : St) (t : Txn) : Txn → P
       (h2 : ∀ it ∈ served, readAt s.store it.1 t.readTs = some it.2.1) :
       Evolve c fp s t { t with reads := t.reads ++ tracked.map (fun it => fp it.1),
                                rkeys := tracked.map (fun it => it.1) ++ t.rkeys,
-                               rlog := served.map (fun it => (it.1, some it.2.1)) ++ t.rlog }
+                               rlog := served.map (fun it => (it.1, some it.2.1)) ++ t.rlog,
+                               scanned := t.scanned || (c.scanTracksRange && t.update),
+                               slog := if t.update then
+                                   (t.writes.map (·.1),
+                                    (((t.writes.map (·.1) ++ s.store.map (·.key)).foldr insertKey []).filterMap (scanItem s t)
+                                      |>.filter (fun it => ownOf t it.1 = none)).map (fun it => (it.1, it.2.1))) :: t.slog
+                                 else t.slog }
 
 theorem Evolve.fixed {c : MvccCfg} {fp : Key → Nat} {s : St} {t t' : Txn} (h : Evolve c fp s t t') :
     t'.readTs = t.readTs ∧ t'.tag = t.tag ∧ t'.update = t.update ∧ t'.doneRead = t.doneRead ∧
@@ -564,7 +570,8 @@ theorem step_live (c : MvccCfg) (fp : Key → Nat) (s : St) (op : Op) (id : Nat)
     (∃ t, Live s id t ∧ Evolve c fp s t t') ∨
     (∃ upd, op = .begin id upd ∧
        t' = { update := upd, readTs := s.nextTs - c.readTsOff, reads := [], ckeys := [], writes := [], count := 1,
-              size := 0, discarded := false, doneRead := false, tag := s.nextTag, rkeys := [], rlog := [] }) := by
+              size := 0, discarded := false, doneRead := false, tag := s.nextTag, rkeys := [], rlog := [],
+              scanned := false, slog := [] }) := by
   obtain ⟨hg, hd⟩ := h
   have keep : ∀ {Q : Prop}, getTxn s id = some t' → (∃ t, Live s id t ∧ Evolve c fp s t t') ∨ Q :=
     fun hg' => Or.inl ⟨t', ⟨hg', hd⟩, .same⟩
